@@ -65,6 +65,10 @@ type Config struct {
 	MaxSteps int
 	// Trace records a description of every decision point and step.
 	Trace bool
+	// SwitchMode: a deviation to another enabled thread does not demote the
+	// threads above it (a single context switch costs 1 wherever it goes, the
+	// priority order stays as it is). The default is delay bounding.
+	SwitchMode bool
 }
 
 const abortSignal = -1 << 30 // distinct from every alternative index (-1 is a select's default arm)
@@ -323,6 +327,9 @@ func (s *Sched) decide() (*thread, int) {
 		costs := make([]int8, len(opts))
 		for i, o := range opts {
 			c := o.k
+			if s.cfg.SwitchMode && o.k > 0 {
+				c = 1
+			}
 			if o.j > 0 {
 				c++
 			}
@@ -355,7 +362,7 @@ func (s *Sched) decide() (*thread, int) {
 	}
 	o := opts[choice]
 	// apply the delays: the first k enabled threads go to the bottom, in order
-	for d := 0; d < o.k; d++ {
+	for d := 0; d < o.k && !s.cfg.SwitchMode; d++ {
 		s.demote(en[d].t)
 	}
 	return en[o.k].t, en[o.k].alts[o.j]
